@@ -393,6 +393,7 @@ def run(rep, facts, tier):
                 'arm writes %s and calls recording primitives %s' % (fields_, prim_calls), rc.name, rc.at(tgt))
 
     check_rnext(rep, fx, arms, arm_writes)
+    check_log_retention(rep, fx, W)
     check_r4(rep, fx, W, far, reach, extra)
 
 
@@ -441,6 +442,35 @@ def check_rnext(rep, fx, arms, arm_writes):
     rep.add('C02.R3', 'C02.R3:rnext:requeues-boundary', requeue,
             'the SetIp that ends the drain is pushed back (it belongs to the previous instruction)' if requeue else
             'rnext does not push the boundary SetIp back', rn.name, rn.j['span'], nontrivial=False)
+
+
+def check_log_retention(rep, fx, W):
+    """the log keeps every entry until rnext consumes it: besides the push, State.reverse_log is changed only by the
+    pop that feeds rnext and by switching recording on/off as a whole"""
+    pops = logfx.poppers(fx, W)
+    n = 0
+    for fn, ws in sorted(W.items()):
+        for w in ws:
+            if w['field'][0] != 'reverse_log':
+                continue
+            n += 1
+            how = w['how']
+            if how.startswith('call:grow'):
+                continue
+            key = 'C02.R3:reverse_log:%s:%s' % (fn, how)
+            if how.startswith('call:shrink:pop') and fn in pops:
+                callers = {c.split('::{closure')[0] for c in fx.callers().get(fn, ())} | {fn.split('::{closure')[0]}
+                ok = callers <= {'state::State::rnext', fn}
+                rep.add('C02.R3', key, ok, 'the pop that feeds rnext' if ok else
+                        '%s pops the reverse log outside rnext (callers: %s): recorded steps disappear without being undone' % (short(fn), sorted(callers)),
+                        fn, w['at'], nontrivial=False)
+            elif fn == 'state::State::set_recording_enabled' and how.startswith('assign'):
+                rep.add('C02.R3', key, True, 'recording switched on (empty log) / off (log dropped) as a whole', fn, w['at'], nontrivial=False)
+            else:
+                rep.add('C02.R3', key, False,
+                        '%s changes State.reverse_log by %s: entries are removed or rewritten without being applied, so steps recorded earlier can no '
+                        'longer be undone (or are undone only in part)' % (short(fn), how), fn, w['at'])
+    rep.floor('C02.R3 reverse_log write events', n, 3)
 
 
 def _log_after_join(f, wbb, guard):
